@@ -14,7 +14,7 @@ PLAN = {
 }
 LEVEL = 'exploration'
 TECHNIQUE = "runtime monitoring: the closed kind(value) x kind(target) x context matrix is enumerated on the real from_data; verdicts come from a hand-written kind table cross-checked against the reference model"
-RULE = ("every cell of 14 value kinds x 27 target kinds x 12 embedding contexts (top level, list/set element, mapping value/key, "
+RULE = ("every cell of 16 value kinds x 29 target kinds x 12 embedding contexts (top level, list/set element, mapping value/key, "
         "tuple slot, union member, Optional, Annotated, dataclass field in struct and tuple layout) with 2-5 representative "
         "values per kind is enumerated in every run (the matrix is exhaustive; the representatives are not); the thorough tier "
         "adds random compositions of contexts to depth 5. A cell is must_reject / must_accept / by-content (decided by the "
@@ -25,7 +25,24 @@ ANCHORS = ['converters:data_is_sequence', 'converters:data_is_mapping', 'convert
            'converters:NoneConverter.try_convert']
 EXHAUSTIVE_WHOLE = False
 
+class StrSub(str):
+    pass
+
+
+class BytesSub(bytes):
+    pass
+
+
+import enum as _enum
+
+
+class StrEnum(str, _enum.Enum):
+    RED = 'ab'
+
+
 VALUES = {
+    'str-subclass-instance': [StrSub('ab'), StrSub('12'), StrEnum.RED],
+    'bytes-subclass-instance': [BytesSub(b'ab')],
     'none': [None],
     'bool': [True, False],
     'int': [0, 5, -3, 1],
@@ -74,6 +91,12 @@ MAP_TARGETS = ('dict', 'struct-literal', 'dataclass-struct')
 
 def cell(vk, tk):
     """'accept' | 'reject' | 'content' (decided by the model on the concrete value) | 'unspec'."""
+    if vk in ('str-subclass-instance', 'bytes-subclass-instance'):
+        # an instance of a str/bytes subclass is still a string: never a sequence, mapping, number, bool or None;
+        # whether string-reading targets take it (they do, by isinstance) is not something the statement settles
+        like = STR_KINDS[2] if vk == 'str-subclass-instance' else 'bytes'
+        base = cell(like, tk)
+        return 'reject' if base == 'reject' else 'unspec'
     if tk in SEQ_TARGETS:
         return 'content' if vk in SEQ_KINDS else 'reject'     # content: length / element hashability
     if tk in MAP_TARGETS:
@@ -174,8 +197,9 @@ def run(ctx):
                 ctx.violation('kind-matrix', sub, case_id, wit, mech=f"wrong-kind-image:{vk}->{tk}")
 
     # --- exhaustive matrix x contexts, split across shards by cell index -------------------------------------------
+    tk_index = {tk: n for n, tk in enumerate(TG)}
     for ci, (vk, tk) in enumerate(cells):
-        if ci % ctx.nshards != ctx.shard:
+        if tk_index[tk] % ctx.nshards != ctx.shard:
             continue
         if not ctx.want('matrix', ci):
             continue
